@@ -14,6 +14,7 @@ import sys
 import time
 import traceback
 import functools
+import gc
 
 print = functools.partial(print, flush=True)  # noqa: A001
 
@@ -67,6 +68,7 @@ def _worker_init():
     boot.scratch_root()
     boot.purge_code_under_test()
     boot.import_code_under_test()
+    gc.disable()   # finalisers run at the explicit collection between runs, not at random points
     _WORKER["ready"] = True
 
 
@@ -74,8 +76,14 @@ def execute_plan(mod, plan):
     """run one plan; harness exceptions are reported apart from violations"""
     from .sim import SIM
 
+    from . import world as _world
+
     t0 = time.time()
     try:
+        # every run starts in a fresh "process": no module state of the code under test, no
+        # filesystem instance cache and no garbage of the previous run survives
+        gc.collect()
+        _world.restart()
         out = mod.execute(plan)
     except BaseException as e:  # noqa: BLE001
         out = {"violations": [], "digest": None, "keys": [], "stats": {}, "faults": {},
@@ -302,8 +310,9 @@ def run_check(pid, tier, master, n_runs=None, workers=None, out=sys.stdout):
         "wall_s": round(wall, 2),
         "violations": n_unlisted,
     }
-    os.makedirs(os.path.join(boot.VERIF_ROOT, "evidence"), exist_ok=True)
-    with open(os.path.join(boot.VERIF_ROOT, "evidence", pid + ".json"), "w") as f:
+    evdir = os.environ.get("VERIF_EVIDENCE_DIR") or os.path.join(boot.VERIF_ROOT, "evidence")
+    os.makedirs(evdir, exist_ok=True)
+    with open(os.path.join(evdir, pid + ".json"), "w") as f:
         json.dump(evidence, f, indent=1, sort_keys=False, default=repr)
         f.write("\n")
 
@@ -349,9 +358,10 @@ def report_violation(pid, tier, master, mod, g, harness_errors, full=True):
             digest = final["digest"]
         else:
             minimal = plan
-    os.makedirs(os.path.join(boot.VERIF_ROOT, "replays"), exist_ok=True)
+    rdir = os.environ.get("VERIF_REPLAY_DIR") or os.path.join(boot.VERIF_ROOT, "replays")
+    os.makedirs(rdir, exist_ok=True)
     tag = hashlib.sha256((v["cls"] + "|" + v["site"]).encode()).hexdigest()[:6]
-    path = os.path.join(boot.VERIF_ROOT, "replays", f"{pid}-{r['seed']:016x}-{tag}.json")
+    path = os.path.join(rdir, f"{pid}-{r['seed']:016x}-{tag}.json")
     doc = {"property": pid, "seed": r["seed"], "master_seed": int(master), "index": r["index"],
            "tier": tier, "plan": minimal, "original_plan": plan, "shrink_candidates_tried": tried,
            "expect": {"cls": expect["cls"], "site": expect["site"], "digest": digest,
